@@ -36,6 +36,12 @@ def is_2_part(instance):
     :rtype: tuple[bool, list[set] | None]
     """
     part_res = is_part(instance)
-    if part_res[0] and len(part_res[1]) == 1:
-        return part_res
+    if part_res[0]:
+        parts = part_res[1]
+        # at most two parts; two parts have to cover all the alternatives
+        if len(parts) <= 1 or (
+            len(parts) == 2
+            and set(instance.alternatives_name) <= parts[0].union(parts[1])
+        ):
+            return part_res
     return False, None
